@@ -418,7 +418,15 @@ def r15_4(ctx) -> None:
     for t in cfg.nodes:
         if t.kind == "test":
             atoms_seen.add(norm(t.ast))
-    need = {"check_required", "reg.required"}
+    K, V = "key", "reg"
+    if ok_loop:
+        tg = loops[0].ast.target  # type: ignore[union-attr]
+        if isinstance(tg, ast.Tuple) and len(tg.elts) == 2 and norm(loops[0].ast.iter).endswith(".items()"):  # type: ignore[union-attr]
+            K, V = norm(tg.elts[0]), norm(tg.elts[1])
+        elif isinstance(tg, ast.Name):
+            K, V = tg.id, f"{rp}[{tg.id}]"
+    crp = v.pos_params[2] if len(v.pos_params) > 2 else "check_required"
+    need = {crp, f"{V}.required"}
     missing_test = [t for t in cfg.nodes if t.kind == "test" and isinstance(t.ast, ast.Compare) and isinstance(t.ast.ops[0], ast.NotIn)
                     and norm(t.ast.comparators[0]) == hp]
     ok_req = need <= atoms_seen and bool(missing_test) and all(not _falls_back(cfg, s, loops) for t in missing_test for s in succ_by_label(cfg, t, "true"))
@@ -437,7 +445,7 @@ def r15_4(ctx) -> None:
     ctx.check(ok_req, "R15.4", v, v.node, "validate_registry_header :: missing required", "a required parameter that is absent does not always raise", "raise iff check_required and reg.required and key not in header",
               construct="missing-required raise")
     # type validation of present parameters; failures propagate as ValueError
-    vcalls = [s for s in eng.cg.calls_in(v) if isinstance(s.node, ast.Call) and s.attr == "validate" and s.node.args and norm(s.node.args[0]) == f"{hp}[key]"]
+    vcalls = [s for s in eng.cg.calls_in(v) if isinstance(s.node, ast.Call) and s.attr == "validate" and s.node.args and norm(s.node.args[0]) == f"{hp}[{K}]" and norm(s.node.func.value) == V]
     present = [t for t in cfg.nodes if t.kind == "test" and isinstance(t.ast, ast.Compare) and isinstance(t.ast.ops[0], ast.In) and norm(t.ast.comparators[0]) == hp]
     ok_val = bool(vcalls) and bool(present)
     if ok_val:
